@@ -750,7 +750,7 @@ class FtrPtrStackTransformation(BaseStackTransformation):
           J_LD_STACK_USED = JD_LD_STACK_USED
         !$loki device-present vars( p_stack, p_selected_real_kind_13_300_stack, ld_stack )
           JD_incr = J_P_STACK_USED
-          zzx(1:nlon, 1:klev) => P_STACK(JD_incr:JD_incr + nlon*klev)
+          zzx(1:nlon, 1:klev) => P_STACK(JD_incr:JD_incr + nlon*klev - 1)
           J_P_STACK_USED = JD_incr + klev*nlon
           JD_incr_SELECTED_REAL_KIND_13_300 = J_P_SELECTED_REAL_KIND_13_300_STACK_USED
           zzy(1:nlon, 1:klev) =>  &
@@ -758,7 +758,7 @@ class FtrPtrStackTransformation(BaseStackTransformation):
               & JD_incr_SELECTED_REAL_KIND_13_300 + nlon*klev)
           J_P_SELECTED_REAL_KIND_13_300_STACK_USED = JD_incr_SELECTED_REAL_KIND_13_300 + klev*nlon
           JD_incr = J_LD_STACK_USED
-          zzl(1:nlon, 1:klev) => LD_STACK(JD_incr:JD_incr + nlon*klev)
+          zzl(1:nlon, 1:klev) => LD_STACK(JD_incr:JD_incr + nlon*klev - 1)
           J_LD_STACK_USED = JD_incr + klev*nlon
 
           zzl = .false.
@@ -927,10 +927,11 @@ class FtrPtrStackTransformation(BaseStackTransformation):
                 arr_dim += (RangeIndex((IntLiteral(1), dim)),)
                 stack_dim_upper += (dim,)
 
+        # the section JD:JD + size - 1 has exactly ``size`` elements
         if stack_dim_upper:
-            stack_dim_upper = Sum((int_var, Product(stack_dim_upper)))
+            stack_dim_upper = Sum((int_var, Product(stack_dim_upper), IntLiteral(-1)))
         else:
-            stack_dim_upper = Sum((int_var, IntLiteral(1)))
+            stack_dim_upper = int_var
         ptr_assignment = Assignment(lhs=array.clone(dimensions=arr_dim),
                                     rhs=stack_var.clone(dimensions=(RangeIndex((int_var, stack_dim_upper)))),
                                     ptr=True)
